@@ -931,7 +931,14 @@ func (cs *CondSpace) VirtualReturns() []VRet {
 		}
 	}
 	for _, r := range returnsOf(cs.Fn) {
-		expand(r, append([]ssa.Value(nil), r.Results...), cs.Reach(r), 0)
+		vals := append([]ssa.Value(nil), r.Results...)
+		for k, v := range vals {
+			// results spilled into cells because the function has a defer: the load after rundefers is the stored value
+			if cv := cellValue(v); cv != stripConv(v) {
+				vals[k] = cv
+			}
+		}
+		expand(r, vals, cs.Reach(r), 0)
 	}
 	return out
 }
